@@ -691,6 +691,36 @@ def run(rep, tier, rng):
                 if got is not None:
                     rep.canary = predicted_atoms(s, resolve(s2), norm_wr, norm_field) != got
                     break
+    # ---- the per-trait and the shared level of one field / variant written as TWO attributes (or the trait named twice in one):
+    # refused with an error of derive_ex's own, or both levels contribute - never one of them silently dropped
+    M_ = "::dxrt::M"
+    dup_items = [
+        ("field", f"struct Ty<T, U>(#[derive_ex(Clone(bound(T: {M_}<8>, ..)))] #[derive_ex(Clone, bound(T: {M_}<9>, ..))] T, U);", (8, 9)),
+        ("field", f"struct Ty<T, U> {{ #[derive_ex(Clone, bound(T: {M_}<9>, ..))] #[derive_ex(Clone(bound(T: {M_}<8>, ..)))] a: T, b: U }}", (8, 9)),
+        ("field", f"struct Ty<T, U>(#[derive_ex(Clone(bound(T: {M_}<8>, ..)), Clone(bound(T: {M_}<7>, ..)))] T, U);", (8, 7)),
+        ("variant", f"enum Ty<T> {{ A, #[derive_ex(Clone(bound(T: {M_}<5>, ..)))] #[derive_ex(Clone, bound(T: {M_}<6>, ..))] B(T) }}", (5, 6)),
+        ("variant", f"enum Ty<T> {{ A, #[derive_ex(PartialEq, bound(T: {M_}<6>, ..))] #[derive_ex(PartialEq(bound(T: {M_}<5>, ..)))] B {{ x: T }} }}", (5, 6)),
+    ]
+    dreqs, dmeta = [], []
+    for where, item, marks in dup_items:
+        tr = "PartialEq" if "PartialEq" in item else "Clone"
+        for entry in ("attr", "derive"):
+            dreqs.append({"id": len(dreqs), "entry": entry, "attr": tr if entry == "attr" else "", "item": item if entry == "attr" else f"#[derive_ex({tr})] {item}"})
+            dmeta.append((where, tr, marks, entry))
+    for o, r, (where, tr, marks, entry) in zip(C.expand(dreqs), dreqs, dmeta):
+        rep.evaluations += 1
+        rep.count("same_trait_in_two_entries_of_one_" + where)
+        if o.get("status") != "ok" or not o.get("parses"):
+            rep.violation("C04|duplicate-entry|expansion-failed", str(r)[:300], {"spec": None, "code": "", "request": r})
+            continue
+        if any(it["kind"] == "compile_error" for it in o["items"]):
+            continue
+        slots, _ = C.impl_slots(o["items"], [tr], skip_first_item=(entry == "attr"))
+        atoms = {a["short"] for a in slots[0]["items"][0].get("where_atoms", [])} if slots[0]["status"] == "impl" else set()
+        missing = [m for m in marks if not any(f"M<{m}>" in a.replace(" ", "") for a in atoms)]
+        if missing:
+            rep.violation(f"C04|duplicate-entry-silently-dropped|{where}", f"two entries for `{tr}` on one {where}: accepted, but the predicate of level marker {missing} is not in the impl ({sorted(atoms)}): {r['item']}",
+                          {"spec": None, "code": "", "request": r, "marks": list(marks), "trait": tr})
     rep.rule = ("assignments of {absent, bound(), bound(P), bound(..), bound(P, ..), bound(Type), bound(Type, ..)} to the priority levels "
                 "(type / variant / field x helper attribute(s) / per-trait / shared), P = `T: M<i>` unique per level, Type = a wrapper "
                 "type unique per level, every field a distinct wrapper type; traits Copy, Clone, Debug, Default, the five comparison "
@@ -698,7 +728,8 @@ def run(rep, tier, rng):
                 "alone with every form and pairs of levels, plus random assignments. Oracle: set of where-clause atoms (bounded type, "
                 "single bound) of the generated impl == reference resolution. A textual difference is reported only after the single "
                 "configuration has been compiled with the real proc-macro and probe_impl!(Ty<AllBut<i>>: Trait) disagrees with the "
-                "reference (or the impl body fails to type-check); a sample is compiled regardless. evaluations = expansions compared "
+                "reference (or the impl body fails to type-check); a sample is compiled regardless. The per-trait and the shared level of one field / variant "
+                "written as two attributes (or the trait named twice) must be refused or both contribute. evaluations = expansions compared "
                 "+ probe bits.")
     rep.assumptions = ["bound(..) on fields the derived code does not use, and key/by on fields, are not generated (the statement is silent)",
                        "declared where-clauses are only exercised textually (the compiled form instantiates T with marker probes)"]
@@ -707,6 +738,18 @@ def run(rep, tier, rng):
 def replay(rep, path):
     j = json.load(open(path))["replay"]
     s = j["spec"]
+    if j.get("request"):
+        o = C.expand([dict(j["request"], id=0)])[0]
+        bad = o.get("status") != "ok" or not any(it["kind"] == "compile_error" for it in o.get("items", []))
+        if not bad:
+            print("replay: no violation")
+            return 0
+        if o.get("status") == "ok":
+            slots, _ = C.impl_slots(o["items"], [j["trait"]], skip_first_item=(j["request"]["entry"] == "attr"))
+            atoms = {a["short"] for a in slots[0]["items"][0].get("where_atoms", [])} if slots[0]["status"] == "impl" else set()
+            bad = any(not any(f"M<{m}>" in a.replace(" ", "") for a in atoms) for m in j["marks"])
+        print(f"VIOLATION property=C04 replay={path}" if bad else "replay: no violation")
+        return 1 if bad else 0
     c = C.compile_single(j["code"], header=HEADER)
     if s is None:
         bad = c.status == "compile_fail" or any(e.get("k") == "uprobe" and e["holds"] is not True for e in c.events)
